@@ -127,6 +127,21 @@ def part_a(shape, res, rng):
                                 if not np.array_equal(np.asarray(got), np.asarray(want)):
                                     msg = "value at %s is %s, the array holds %s" % (dict(zip(in_names, pt)), short(np.asarray(got).tolist()), short(np.asarray(want).tolist()))
                                     break
+                        if msg is None and len(f.inputs) >= 2:
+                            # the same funsor with its inputs permuted must convert back to the same array
+                            name_to_dim0 = {n: d for d, n in dim_to_name.items() if n in f.inputs}
+                            k0 = -min(name_to_dim0.values())
+                            want0 = x.reshape(tuple(bshape[nb - k0:]) + eshape)
+                            for perm in itertools.permutations(list(f.inputs)):
+                                try:
+                                    y2 = np.asarray(funsor.to_data(f.align(tuple(perm)), name_to_dim0))
+                                except Exception as e:
+                                    msg = "to_data of the re-aligned funsor raised %s" % type(e).__name__
+                                    break
+                                res.count("A:permuted-roundtrips")
+                                if y2.shape != want0.shape or not np.array_equal(y2, want0):
+                                    msg = "round trip through inputs order %s changed the data" % (perm,)
+                                    break
                         if msg is None:
                             name_to_dim = {n: d for d, n in dim_to_name.items() if n in f.inputs}
                             try:
@@ -283,6 +298,8 @@ def part_c(res, rng):
         subjects.append(("lazy-Subs", idx(a=Variable("i", Bint[2]))))
         subjects.append(("lazy-Stack", Stack("s", (idx, idx(a=1)))))
         subjects.append(("lazy-Binary", Variable("i", Bint[2]) * Variable("j", Bint[3])))
+        subjects.append(("lazy-Binary-equal-sizes", Variable("i", Bint[3]) * Number(3, 4) + Variable("j", Bint[3])))
+        subjects.append(("lazy-Binary-three", (Variable("i", Bint[2]) * Number(2, 3) + Variable("j", Bint[2])) * Number(2, 3) + Variable("k", Bint[2])))
         subjects.append(("lazy-getitem", Tensor(np.arange(6).reshape(2, 3), OrderedDict(), 6)[Variable("i", Bint[2])]))
     for label, x in subjects:
         case = (label, str(x)[:80])
